@@ -943,6 +943,18 @@ def run(ctx):
 
     # ---- the framework on random description programs (statement of C06_des_ser on the implementation) ----
     framework_oracle(ctx, rng, ctx.pick(2500, 40000))
+    # ---- exhaustive small-range sweep of the exp-Golomb / fixed-width primitives (shared with C20): every value a
+    #      deserialised field can hold must be written back as the code it was read from
+    try:
+        from C20 import expgolomb_sweep
+        n_sweep = 0
+        for k, i, d, o, e in expgolomb_sweep():
+            n_sweep += 1
+            if n_sweep <= 5:
+                ctx.violation("primitive-" + k, i, d, observed=o, expected=e)
+        ctx.count(1, key=("primitive-sweep",), bucket="primitive-sweep")
+    except ImportError as e:
+        ctx.note("primitive sweep unavailable: %r" % (e,))
 
     # ---- hand-made streams -------------------------------------------------------------------
     for label, data in handmade(rng):
@@ -992,6 +1004,9 @@ def run(ctx):
 
 
 def replay(ctx, data):
+    if "sweep" in data["input"]:       # primitive sweep shared with C20
+        import C20
+        return C20.replay(ctx, data)
     I = impl()
     if "framework_prog" in data["input"]:
         import C21
